@@ -82,7 +82,16 @@ class Checker:
         self.local_kinds = {}         # (fname, sig) -> local name -> declared kind
         self.final_sig = {}           # (fname, requested sig) -> signature the variant is emitted with (widened parameters)
         self.call_log = set()         # (fname, sig) of every helper call met inside a helper body
+        self.sig_order = {}           # fname -> signatures in the order the transpiler records them (function_call_signatures)
         self._argchecks = None        # (name, label) of Name arguments of helper calls inside the variant being checked
+        # forward calls: a helper called ABOVE its definition has no source at that moment; the call is labelled int and the
+        # signature stays pending until the def is met (then the variant is parsed).  `known` = helpers whose source the
+        # transpiler holds at the simulated moment (simulate_defs walks the defs in script order; default: all of them)
+        self.known = set(self.funcs)
+        self.pending = {}             # fname -> signatures recorded before its def
+        self.unknown_calls = []       # (variant key of the caller, callee, signature): calls typed int for lack of a source
+        self._current = None          # key of the variant being checked
+        self.parsed_with = {}         # variant key -> frozenset(known) at the time it was parsed (first parse wins)
 
     # ---- expressions
     def kind(self, node, env, caller=None):
@@ -148,16 +157,32 @@ class Checker:
             if f in ("int", "float") and len(ks) == 1 and ks[0] in NUM:
                 return f
             if f in self.funcs:
-                if caller is not None and self.order.index(f) >= self.order.index(caller):
-                    raise OutOfGuard("call of a later helper")
+                if caller is not None and f == caller:
+                    raise OutOfGuard("recursion")
                 for a in node.args:
-                    lit = isinstance(a, ast.Constant) and isinstance(a.value, (bool, int)) and not isinstance(a.value, float)
-                    if not (isinstance(a, ast.Name) or lit):
+                    if not arg_shape_ok(a):
                         raise OutOfGuard("call argument shape")
+                self.note_call(f, tuple(ks))
                 if caller is not None:
                     self.call_log.add((f, tuple(ks)))
                     if self._argchecks is not None:
                         self._argchecks += [(a.id, kk) for a, kk in zip(node.args, ks) if isinstance(a, ast.Name)]
+                        for a in node.args:
+                            if not isinstance(a, ast.Name):
+                                for sub in ast.walk(a):
+                                    if isinstance(sub, ast.Name):
+                                        if env.get(sub.id) == "bool":
+                                            raise OutOfGuard("bool name inside an expression argument")
+                                        self._argchecks.append((sub.id, env.get(sub.id)))
+                if f not in self.known:
+                    if caller is None or "str" in ks:
+                        raise OutOfGuard("call of a helper that has no source yet")
+                    if len(ks) != len(self.funcs[f][0]):
+                        raise OutOfGuard("arity")
+                    self.unknown_calls.append((self._current, f, tuple(ks)))
+                    if tuple(ks) not in self.pending.setdefault(f, []):
+                        self.pending[f].append(tuple(ks))
+                    return "int"
                 return self.variant(f, tuple(ks))
             raise OutOfGuard("call " + f)
         raise OutOfGuard(type(node).__name__)
@@ -180,11 +205,14 @@ class Checker:
                 if p in self.globals:
                     raise OutOfGuard("parameter shadows a global")
             saved_checks, self._argchecks = self._argchecks, []
+            saved_cur, self._current = self._current, key
+            self.parsed_with[key] = frozenset(self.known)
             try:
                 self.block(body, st, False)
                 mine = self._argchecks
             finally:
                 self._argchecks = saved_checks
+                self._current = saved_cur
             for n_, lab in mine:                             # the C++ argument type is the declared type: it must be the label
                 if st["decl"].get(n_) != lab:
                     raise OutOfGuard("helper argument whose label differs from its declared type")
@@ -202,6 +230,37 @@ class Checker:
 
     def env(self, st):
         return {n: st["decl"][n] for n in st["assigned"] & st["label_ok"]}
+
+    def note_call(self, f, sig):
+        lst = self.sig_order.setdefault(f, [])
+        if sig not in lst:
+            lst.append(sig)
+
+    def simulate_defs(self, skip_def_time=()):
+        """walk the defs in script order like parse() does: the def-time parse (every un-annotated parameter int) sees only the
+        sources of the helpers defined so far (its own included); afterwards the signatures recorded for it by calls ABOVE its
+        def are parsed.  Raises OutOfGuard when one of those parses leaves the guard."""
+        self.known = set()
+        try:
+            for f in self.order:
+                self.known.add(f)
+                params, _ = self.funcs[f]
+                if f not in skip_def_time:
+                    self.variant(f, tuple("int" for _ in params))
+                for sg in list(self.pending.get(f, [])):
+                    self.variant(f, sg)
+        finally:
+            self.known = set(self.funcs)
+
+    def stale_forward_variants(self):
+        """variants typed while a callee had no source (its result labelled int) although that callee's variant returns
+        another kind: finding F-C02-forward-call-result-typed-int; such a variant must never be emitted"""
+        out = set()
+        for key, h, ks in self.unknown_calls:
+            r = self.memo.get((h, ks))
+            if r != "int":
+                out.add(key)
+        return out
 
     def overwritten_variants(self):
         """requested signatures of one helper that end on the same final signature but type a local or the result
@@ -307,6 +366,23 @@ class Checker:
                         st["label_ok"].add(x)
             else:
                 raise OutOfGuard(t)
+
+
+def arg_shape_ok(a, top=True):
+    """call arguments whose C++ type is exactly their label: names, int / bool literals, and + - * over int / float NAMES and int
+    literals (float op int is float in C++; a float literal would be a double: overload ambiguity is C06's subject)"""
+    if isinstance(a, ast.Name):
+        return True
+    if isinstance(a, ast.Constant):
+        if isinstance(a.value, bool):
+            return top
+        return isinstance(a.value, int)
+    if isinstance(a, ast.BinOp) and isinstance(a.op, (ast.Add, ast.Sub, ast.Mult)):
+        return arg_shape_ok(a.left, False) and arg_shape_ok(a.right, False)
+    if top and isinstance(a, ast.Call) and isinstance(a.func, ast.Name) and a.func.id.startswith("h") and not a.keywords:
+        # the result of another helper call: its C++ type is the return type of the variant reached = its label
+        return all(isinstance(x, ast.Name) or (isinstance(x, ast.Constant) and isinstance(x.value, int)) for x in a.args)
+    return False
 
 
 def cxx_rank(arg, par):
@@ -430,7 +506,12 @@ class FnGen:
                       "param_widening_statements": 0, "calls_reaching_their_variant_through_an_alias": 0,
                       "alias_call_after_a_call_with_the_final_signature": 0, "alias_call_before_a_call_with_the_final_signature": 0,
                       "rejected_overwritten_variant": 0, "rejected_ambiguous_overload": 0, "comprehensions_in_helpers": 0,
-                      "comprehension_target_shadows_a_name": 0, "helper_accumulators_shadowed": 0}
+                      "comprehension_target_shadows_a_name": 0, "helper_accumulators_shadowed": 0,
+                      "forward_programs": 0, "callers_defined_above_their_helper": 0, "forward_call_sites": 0,
+                      "forward_call_sites_reaching_a_variant_other_than_the_first_declared": 0,
+                      "forward_calls_through_another_helper": 0, "helpers_with_two_variants": 0, "helpers_with_three_or_more_variants": 0,
+                      "forward_callee_variants_by_kind": {}, "rejected_stale_forward_variant": 0, "forward_orders": {},
+                      "later_helper_calling_a_caller_above": 0, "expression_arguments": 0, "helper_results_as_arguments": 0}
 
     # ---- polymorphic expressions over names
     def atom(self, names, lits=True):
@@ -619,15 +700,268 @@ class FnGen:
             return rng.choice(FLT_LITS)
         return self.expr(rng.choice([0, 1, 1, 2]), names)
 
+    def expr_arg(self, kind, by_kind):
+        """an argument EXPRESSION whose C++ type is its label: int names / literals with + - *, a float name with an int operand"""
+        rng = self.rng
+        self.stats["expression_arguments"] += 1
+        ints = by_kind.get("int") or ["3"]
+        if kind == "int":
+            return f"({rng.choice(ints)} {rng.choice(['+', '-', '*'])} {rng.choice(['1', '2', rng.choice(ints)])})"
+        x = rng.choice(by_kind["float"])
+        other = rng.choice(["2", "3", rng.choice(ints), rng.choice(by_kind["float"])])
+        return f"({x} {rng.choice(['+', '-', '*'])} {other})" if rng.random() < 0.7 else f"({other} + {x})"
+
+    # ---- callers emitted ABOVE the helper they call (forward calls; prototypes decide the overload inside their bodies)
+    def caller_body(self, params, callees, sfx):
+        """a body that calls the helpers in `callees` [(name, arity)] with its parameters, locals and int / bool literals"""
+        rng = self.rng
+        names = list(params)
+        out = []
+        nloc = 0
+
+        def arg():
+            r = rng.random()
+            if r < 0.12:
+                self.stats["expression_arguments"] += 1
+                return f"({rng.choice(names)} {rng.choice(['+', '-', '*'])} {rng.choice(['1', '2', rng.choice(names)])})"
+            if r < 0.7:
+                return rng.choice(names)
+            if r < 0.9:
+                return rng.choice(["1", "2", "3"])
+            return rng.choice(["True", "False"])
+
+        def call():
+            f, ar = rng.choice(callees)
+            args = [arg() for _ in range(ar)]
+            if not any(n_ in a for a in args for n_ in names):
+                args[rng.randrange(ar)] = rng.choice(names)
+            return f"{f}({', '.join(args)})"
+
+        for _ in range(rng.choice([1, 1, 2, 3])):
+            r = rng.random()
+            nloc += 1
+            if r < 0.35:
+                w = f"w{nloc}{sfx}"
+                out.append(("assign", w, call()))
+                names.append(w)
+            elif r < 0.55:
+                w = f"w{nloc}{sfx}"
+                out.append(("assign", w, f"({rng.choice(names)} {rng.choice(['*', '+', '-'])} {rng.choice(['2', '3', '0.5', '1.5'])})"))
+                names.append(w)
+            elif r < 0.75:
+                y = f"y{nloc}{sfx}"
+                c1, c2 = call(), call()
+                out.append(("if", [(self.cond(list(params)), [("assign", y, c1)])], [("assign", y, c2 if rng.random() < 0.5 else c1)]))
+                names.append(y)
+            elif r < 0.9:
+                out.append(("if", [(self.cond(list(params)), [("return", call())])], None))
+            else:
+                t = f"t{nloc}{sfx}"
+                out.append(("for", f"i{nloc}{sfx}", rng.choice(["1", "2"]), [("assign", t, call())]))
+                names.append(t)
+        r = rng.random()
+        if r < 0.4:
+            out.append(("return", f"({call()} {rng.choice(['+', '-', '*'])} {rng.choice(['1', '2', rng.choice(names)])})"))
+        elif r < 0.6:
+            out.append(("return", f"({call()} + {call()})"))
+        elif r < 0.8 and len(names) > len(params):
+            out.append(("return", rng.choice(names[len(params):])))
+        else:
+            out.append(("return", call()))
+        return out
+
+    def _program_fwd(self):
+        """defs in an order in which at least one helper is called ABOVE its definition: caller first, helper later (and a
+        helper in between / on top that reaches it through the caller; a later helper that calls the caller); every helper is
+        requested under 2-3 signatures, directly from the top level and through the callers"""
+        rng = self.rng
+        gl = [g for g in GLOBALS if g[1] != "str"]
+        gnames = {g[0] for g in gl}
+        shape = rng.choice(["C L", "C L", "T C L", "C L K", "C M L", "C L1 L2", "T C L K"])
+        roles = shape.split()
+        funcs = []                       # (name, params, body) in def order
+        arity = {}
+        names = {}
+        for j, role in enumerate(roles):
+            names[role] = f"h{j + 1}"
+            arity[role] = rng.choice([1, 1, 2]) if role.startswith("L") else 1
+        leaves = [r_ for r_ in roles if r_.startswith("L")]
+        for j, role in enumerate(roles):
+            name = names[role]
+            params = ["p", "q"][:arity[role]]
+            sfx = f"c{j + 1}"
+            if role.startswith("L"):
+                body = self.body(params, [])
+            elif role == "C":                                   # calls the leaves defined BELOW it
+                body = self.caller_body(params, [(names[l_], arity[l_]) for l_ in leaves], sfx)
+            elif role == "M":                                   # between caller and leaf: calls the leaf (below), is called by nobody above
+                body = self.caller_body(params, [(names[l_], arity[l_]) for l_ in leaves] + [(names["C"], 1)], sfx)
+            elif role == "T":                                   # on top: reaches the leaf through the caller (both below it)
+                body = self.caller_body(params, [(names["C"], 1)], sfx)
+            else:                                               # K: defined last, calls the caller that sits above the leaf
+                body = self.caller_body(params, [(names["C"], 1)] + ([(names[leaves[0]], arity[leaves[0]])] if rng.random() < 0.4 else []), sfx)
+            funcs.append((name, params, body))
+        for f, ps, b in funcs:                                  # local names of a caller and of everything it can reach are disjoint
+            mine = assigned_names(b)
+            for g_, _, gb in funcs:
+                if g_ != f and called_helpers(b, [g_]) and mine & assigned_names(gb):
+                    return None
+        ck = Checker([(f, (ps, b)) for f, ps, b in funcs], global_names=gnames | {"m1", "g1", "g2", "j1"})
+        try:
+            ck.simulate_defs()
+        except OutOfGuard:
+            return None
+        by_kind = {k: [g[0] for g in gl if g[1] == k] for k in ("int", "float", "bool")}
+        seq = []
+        valid = []
+        for f, ps, b in funcs:
+            sigs = []
+            for _ in range(rng.choice([2, 3, 3])):
+                sg = tuple(rng.choice(["int", "float", "float", "bool"]) for _ in ps)
+                try:
+                    ck.variant(f, sg)
+                except OutOfGuard:
+                    continue
+                if (f, sg) in ck.stale_forward_variants():
+                    continue
+                sigs.append(sg)
+                valid.append((f, sg))
+            for sg in sigs:
+                for _ in range(rng.choice([1, 1, 2])):
+                    seq.append((f, sg))
+        if not seq:
+            return None
+        rng.shuffle(seq)
+        call_items, used_calls, res_decl, nres = [], [], {}, 0
+        for f, sg in seq[:rng.choice([4, 5, 6, 8])]:
+            args = []
+            for kx in sg:
+                inner = [(g_, s2) for (g_, s2) in valid if len(s2) == 1 and g_ != f and ck.memo.get((g_, s2)) == kx]
+                if inner and rng.random() < 0.15:
+                    g_, s2 = rng.choice(inner)
+                    a_ = rng.choice(by_kind[s2[0]]) if by_kind[s2[0]] else None
+                    if a_ is not None:
+                        args.append(f"{g_}({a_})")
+                        ck.note_call(g_, s2)
+                        used_calls.append((g_, s2))
+                        self.stats["helper_results_as_arguments"] += 1
+                        continue
+                if kx in ("int", "float") and rng.random() < 0.2:
+                    args.append(self.expr_arg(kx, by_kind))
+                elif by_kind[kx] and (kx == "float" or rng.random() < 0.7):
+                    args.append(rng.choice(by_kind[kx]))
+                else:
+                    args.append(rng.choice(["0", "1", "2", "3", "7"]) if kx == "int" else rng.choice(["True", "False"]))
+            rk = ck.variant(f, sg)
+            ck.note_call(f, sg)
+            cands = [n for n, K in res_decl.items() if KORD[rk] <= KORD[K]]
+            if cands and rng.random() < 0.3:
+                r_ = rng.choice(cands)
+            else:
+                nres += 1
+                r_ = f"r{nres}"
+                res_decl[r_] = rk
+            call_items.append([("assign", r_, f"{f}({', '.join(args)})"), ("write", r_)])
+            used_calls.append((f, sg))
+        all_calls = set(used_calls) | set(ck.call_log)
+        if ck.stale_forward_variants() & all_calls:
+            self.stats["rejected_stale_forward_variant"] += 1
+            return None
+        if ck.overwritten_variants():
+            self.stats["rejected_overwritten_variant"] += 1
+            return None
+        emitted = {}
+        for f_, sg_ in all_calls:
+            if (f_, sg_) not in ck.final_sig:
+                return None                                      # a recorded signature whose variant leaves the guard
+            emitted.setdefault(f_, set()).add(ck.final_sig[(f_, sg_)])
+        for f_, sg_ in all_calls:
+            if cxx_pick(sg_, emitted[f_]) != ck.final_sig[(f_, sg_)]:
+                self.stats["rejected_ambiguous_overload"] += 1
+                return None
+        # reachable forward call sites: a call written in a body emitted above the definition of its callee
+        order = [f for f, _, _ in funcs]
+        reach, todo = set(), list(set(used_calls))
+        inner = {}
+        for key, h, ks in ck.unknown_calls:
+            inner.setdefault(key, set()).add((h, ks))
+        # calls met while a variant was parsed (known callees): recover them from the body text per variant is not needed for
+        # the statistics below; forward sites are counted per emitted caller variant from a re-parse with every source known
+        fwd_sites = fwd_nonfirst = through = 0
+        ck2 = Checker([(f, (ps, b)) for f, ps, b in funcs], global_names=gnames | {"m1", "g1", "g2", "j1"})
+        for f_, sg_ in sorted(all_calls):
+            before = set(ck2.call_log)
+            ck2.memo.pop((f_, sg_), None)
+            try:
+                ck2.variant(f_, sg_)
+            except OutOfGuard:
+                continue
+        for (f_, sg_) in sorted(all_calls):
+            ck3 = Checker([(f, (ps, b)) for f, ps, b in funcs], global_names=gnames | {"m1", "g1", "g2", "j1"})
+            for (g_, s2), r in ck2.memo.items():
+                if (g_, s2) != (f_, sg_):
+                    ck3.memo[(g_, s2)] = r
+                    ck3.final_sig[(g_, s2)] = ck2.final_sig.get((g_, s2), s2)
+                    ck3.local_kinds[(g_, s2)] = ck2.local_kinds.get((g_, s2), {})
+                    ck3.ret_sets[(g_, s2)] = ck2.ret_sets.get((g_, s2), [])
+            try:
+                ck3.variant(f_, sg_)
+            except OutOfGuard:
+                continue
+            for (h, ks) in ck3.call_log:
+                if order.index(h) > order.index(f_):
+                    fwd_sites += 1
+                    first = ck.sig_order.get(h, [ks])[0]
+                    if ck.final_sig.get((h, first), first) != ck.final_sig.get((h, ks), ks):
+                        fwd_nonfirst += 1
+                    if (f_, sg_) not in set(used_calls):
+                        through += 1
+        placed, loop_body, declared_top = [], [], set()
+        for pair in call_items:
+            r_ = pair[0][1]
+            where = rng.random()
+            if where < 0.75 or r_ not in declared_top:
+                placed += [("stmt", s_) for s_ in pair]
+                declared_top.add(r_)
+            elif where < 0.85:
+                placed.append(("stmt", ("if", [("n1 > 1", pair)], None)))
+            else:
+                loop_body += pair
+        items = [("stmt", ("assign", g[0], g[2])) for g in gl] + [("def", f, ps, b) for f, ps, b in funcs] + placed
+        if loop_body:
+            items.append(("loop", loop_body))
+        st = self.stats
+        st["forward_programs"] += 1
+        st["functions"] += len(funcs)
+        st["calls"] += len(call_items)
+        st["forward_orders"][shape] = st["forward_orders"].get(shape, 0) + 1
+        st["callers_defined_above_their_helper"] += sum(1 for r_ in roles if r_ in ("C", "M", "T"))
+        st["later_helper_calling_a_caller_above"] += ("K" in roles)
+        st["forward_call_sites"] += fwd_sites
+        st["forward_call_sites_reaching_a_variant_other_than_the_first_declared"] += fwd_nonfirst
+        st["forward_calls_through_another_helper"] += through
+        for f_, v in emitted.items():
+            st["variants"] += len(v)
+            if len(v) == 2:
+                st["helpers_with_two_variants"] += 1
+            elif len(v) >= 3:
+                st["helpers_with_three_or_more_variants"] += 1
+            if f_ in {names[l_] for l_ in leaves}:
+                for sg_ in v:
+                    k_ = "+".join(sg_)
+                    st["forward_callee_variants_by_kind"][k_] = st["forward_callee_variants_by_kind"].get(k_, 0) + 1
+        return items, (1 if loop_body else 0)
+
     # ---- a whole program
     def program(self):
         rng = self.rng
-        for _ in range(200):
-            p = self._program()
+        fwd = rng.random() < 0.4
+        for _ in range(400):
+            p = self._program_fwd() if fwd else self._program()
             if p is not None:
                 return p
             self.stats["regenerated_bodies"] += 1
-        raise RuntimeError("FnGen: no program inside the guard after 200 attempts")
+        raise RuntimeError("FnGen: no program inside the guard after 400 attempts")
 
     def _program(self):
         rng = self.rng
@@ -651,13 +985,12 @@ class FnGen:
         ck = Checker([(f, (ps, b)) for f, ps, b in funcs], global_names=gnames | {"m1", "g1", "g2", "j1"})
         # call signatures per function: the all-int variant of the def-time parse must be inside the guard too
         calls = []
+        try:
+            ck.simulate_defs(skip_def_time={sf[0] for sf in STR_FUNCS})
+        except OutOfGuard:
+            return None
         for f, ps, b in funcs:
             is_str = any(f == sf[0] for sf in STR_FUNCS)
-            try:
-                if not is_str:
-                    ck.variant(f, tuple("int" for _ in ps))
-            except OutOfGuard:
-                return None
             pool = ["int", "float", "bool"] + (["str"] if is_str else [])
             sigs = []
             for _ in range(rng.choice([2, 3, 3, 4])):
@@ -704,7 +1037,9 @@ class FnGen:
         for f, sg in seq[:rng.choice([5, 6, 8])]:
             args = []
             for kx in sg:
-                if by_kind[kx] and (kx in ("float", "str") or rng.random() < 0.7):
+                if kx in ("int", "float") and by_kind[kx] and rng.random() < 0.15:
+                    args.append(self.expr_arg(kx, by_kind))
+                elif by_kind[kx] and (kx in ("float", "str") or rng.random() < 0.7):
                     args.append(rng.choice(by_kind[kx]))
                 elif kx == "int":
                     args.append(rng.choice(["0", "1", "2", "3", "7"]))
@@ -837,7 +1172,24 @@ def fixed_programs():
     shadp = ("def", "h2", ["p", "q"], [("comp", "L1", "p", "p * q", "2"), ("assign", "w1", "p * 2"), ("return", "w1")])
     count = ("def", "h3", ["p"], [("assign", "w1", "0"), ("for", "i1", "2", [("assign", "w1", "w1 + 2")]),
                                   ("comp", "L1", "w1", "w1 * 0.5", "2"), ("return", "w1 + p")])
+    # callers emitted ABOVE the helper they call: inside their bodies the overload is chosen among the prototypes alone.
+    # (1) the helper gets an int variant from the def-time parse of the caller and a float variant from the real call;
+    # (2) three variants, reached directly, through the caller, through a helper on top of the caller and from a helper
+    #     defined last; (3) two-parameter helper: (float, int), (int, int), (bool, bool), (float, float) variants
+    fsc = ("def", "h1", ["p"], [("return", "h2(p) + 1")])
+    ftw = ("def", "h2", ["p"], [("return", "p * 2")])
+    ftop = ("def", "h1", ["p"], [("assign", "w1c1", "h2(p)"), ("return", "w1c1 * 2")])
+    fmid = ("def", "h2", ["p"], [("if", [("p > 1", [("return", "h3(p, 1)")])], None), ("return", "h3(p, p)")])
+    flow = ("def", "h3", ["p", "q"], [("return", "p + q")])
+    flast = ("def", "h4", ["p"], [("assign", "w1c4", "h2(p)"), ("return", "w1c4 + h3(p, 2)")])
+    fhalf = ("def", "h1", ["p"], [("if", [("p > 2", [("assign", "y1c1", "h2(p)")])], [("assign", "y1c1", "h2(p) + h2(2)")]), ("return", "y1c1 + h2(p)")])
+    fsq = ("def", "h2", ["p"], [("assign", "w1", "p * p"), ("return", "w1 - p")])
     progs = [
+        (G + [fsc, ftw] + calls(["h1(x1)", "h2(n1)", "h1(x2)", "h2(x3)", "h1(x4)"]), 0),
+        (G + [ftop, fmid, flow, flast]
+         + calls(["h1(x1)", "h1(n1)", "h1(b1)", "h4(x2)", "h4(n2)", "h3(x1, n1)", "h2(x3)", "h3(b1, b2)", "h2(n3)", "h4(b2)", "h1(x4)"]), 0),
+        (G + [fhalf, fsq] + calls(["h1(x3)", "h1(x2)", "h2(b1)", "h2(x1)"]) +
+         [("loop", [("assign", "r1", "h1(x1)"), ("write", "r1"), ("assign", "r4", "h2(x4)"), ("write", "r4")])], 2),
         (G + [spread, shadp, count]
          + calls(["h1(n1)", "h1(x1)", "h2(x1, n1)", "h2(n1, x2)", "h2(b1, n1)", "h3(n1)", "h3(x2)"]), 0),
         (G + [blend, augw, half, early, keepw]
@@ -860,15 +1212,15 @@ def fixed_programs():
 
 def validate_fixed():
     """the fixed programs are inside the guard: every call at column 0 / in the main loop resolves to a variant the
-    Checker accepts, and so does the all-int variant of every def (harness self-check, raises on a harness bug)"""
+    Checker accepts, and so does the all-int variant of every def (parsed in script order: a helper called above its def has
+    no source there); no emitted variant was typed while a callee with a non-int result had no source
+    (harness self-check, raises on a harness bug)"""
     genv = {g[0]: g[1] for g in GLOBALS}
     for items, _ in fixed_programs():
         funcs = [(it[1], (it[2], it[3])) for it in items if it[0] == "def"]
         ck = Checker(funcs, global_names=set(genv) | {"m1", "g1"})
         env = dict(genv)
-        for f, (ps, b) in funcs:
-            if not any(f == "h5" and "\"big\"" in str(b) for _ in [0]):
-                ck.variant(f, tuple("int" for _ in ps))
+        ck.simulate_defs(skip_def_time={f for f, (ps, b) in funcs if f == "h5" and "\"big\"" in str(b)})
         stmts = []
         for it in items:
             if it[0] == "stmt":
@@ -881,4 +1233,16 @@ def validate_fixed():
                 if s_[1] in env and env[s_[1]] != k and ("str" in (k, env[s_[1]]) or KORD[k] > KORD[env[s_[1]]]):
                     raise OutOfGuard(f"fixed program: {s_[1]} = {s_[2]}: {k} into {env[s_[1]]}")
                 env.setdefault(s_[1], k)
+        requested = {(f, sg) for f, sgs in ck.sig_order.items() for sg in sgs}
+        stale = ck.stale_forward_variants() & requested
+        if stale:
+            raise OutOfGuard(f"fixed program: emitted variant typed before its callee had a source: {sorted(stale)}")
+        emitted = {}
+        for f, sg in requested:
+            if (f, sg) not in ck.final_sig:
+                raise OutOfGuard(f"fixed program: recorded signature outside the guard: {f}{sg}")
+            emitted.setdefault(f, set()).add(ck.final_sig[(f, sg)])
+        for f, sg in requested:
+            if cxx_pick(sg, emitted[f]) != ck.final_sig[(f, sg)]:
+                raise OutOfGuard(f"fixed program: overload resolution does not reach the variant meant for {f}{sg}")
     return True
